@@ -7,6 +7,7 @@ import (
 	"strings"
 	"sync"
 	"testing"
+	"time"
 
 	"verifharness/evid"
 
@@ -383,7 +384,17 @@ func runC02Session(s *c02Session) *Violation {
 			runtime.Gosched()
 		}
 	}()
-	defer func() { close(stopPoll); pollWG.Wait() }()
+	defer func() {
+		close(stopPoll)
+		// (bounded: if the client left one of its locks held, the poller is stuck behind it - the
+		// scenario's own verdict says so, the clean-up must not hang on it)
+		done := make(chan struct{})
+		go func() { pollWG.Wait(); close(done) }()
+		select {
+		case <-done:
+		case <-time.After(2 * time.Second):
+		}
+	}()
 	c := tc.conn()
 	var want []string
 	var all strings.Builder
